@@ -147,3 +147,14 @@ Definition server_manifest (f : mfacts) : Prop :=
                       (forall a, m_prev_ast f = Some a -> m_ast f = Some a)) /\
   (m_live f = false -> m_dynamic f = false /\ (exists d, m_mpd f = Some d /\ 0 < d) /\ m_has_mup f = false /\ m_has_ast f = false /\
                        m_patches f = 0).
+
+(* ---- the decode-time tolerance the validator grants (representation.py): SegmentTemplate with @duration:
+   timescale // frameRate, doubled for the first segment, halved for audio; SegmentTimeline:
+   timescale // 20 for audio, timescale // frameRate otherwise.  frameRate = num/den as FrameRateType parses
+   it (the first present of Representation@frameRate, AdaptationSet@maxFrameRate, @minFrameRate, else 24) *)
+Definition tol_base (timescale num den : Z) : Z := (timescale * den) / num.
+Definition tol_template (timescale num den idx : Z) (audio : bool) : Z :=
+  let t := tol_base timescale num den in
+  if idx =? 0 then t * 2 else if audio then t / 2 else t.
+Definition tol_timeline (timescale num den : Z) (audio : bool) : Z :=
+  if audio then timescale / 20 else tol_base timescale num den.
